@@ -612,6 +612,8 @@ def stream_resize(c, N, tmp):
 
 
 def stream_ops(c, N, tmp):
+    """set / resize / move forecast / add member / WRITE (several times) in any order on a NEW object, XML and
+    binary; after every write the file is read back and compared"""
     import rtctools.data.pi as pi
     import rtctools.data.rtc as rtc
 
@@ -619,9 +621,10 @@ def stream_ops(c, N, tmp):
     cases, lines = [], []
     for i in range(N):
         ids = P.gen_ids(rng, 3)
-        st = gen_store(rng, ids, False)
+        binary = rng.random() < 0.3
+        st = gen_store(rng, ids, binary)
         while st["dt"] is None:
-            st = gen_store(rng, ids, False)
+            st = gen_store(rng, ids, binary)
         d0 = st["dt"]
         init = rng.choice(["none", "none", "some members", "all"])
         if init == "none":
@@ -630,27 +633,82 @@ def stream_ops(c, N, tmp):
             keep = rng.randrange(len(st["slots"]))
             st["slots"] = [sl if m == keep else [] for m, sl in enumerate(st["slots"])]
         E = len(st["slots"])
+        cens = st["containsEns"]
+        fc = st["forecast"]
         folder = os.path.join(tmp, "op%d" % i)
         os.makedirs(folder)
         with open(os.path.join(folder, "rtcDataConfig.xml"), "w") as fh:
             fh.write(ids.config_xml())
         dc = rtc.DataConfig(folder)
-        ts = P.build_real(pi, dc, folder, "ts", st, ids, False)
-        # reference: value by stamp for every stored series, and the current window
-        ref = {}
+        ts = P.build_real(pi, dc, folder, "ts", st, ids, binary)
+        # reference: value by stamp and unit for every stored series, the current window, forecast, members
+        ref, units = {}, {}
         for m, sl in enumerate(st["slots"]):
             for e in sl:
                 ref[(m, e["var"])] = dict(zip(st["times"], [float(unfr(x)) for x in e["vals"]]))
+                units[(m, e["var"])] = e["unit"]
         win = (st["start"], st["stop"])
-        ops, obs, fails = [], [], []
-        nops = rng.randint(2, 6)
-        pattern = rng.choice(["resize-first", "resize-first", "resizes-in-a-row", "any"])
+        ops, obs, fails, model_ok = [], [], [], True
+        nwrites = 0
+        nops = rng.randint(2, 8)
+        pattern = rng.choice(["resize-first", "resizes-in-a-row", "write-change-write", "write-change-write", "any"])
+
+        def holds(slots, readback):
+            got = {(m2, e["var"]): e for m2, sl in enumerate(slots) for e in sl}
+            if set(got) != set(ref):
+                return "stored series: %s instead of %s" % (sorted(got), sorted(ref))
+            stamps_ = list(range(win[0], win[1] + 1, d0))
+            for key, byt in ref.items():
+                exp = [byt.get(t, NAN) for t in stamps_]
+                if readback and binary:
+                    exp = [x if isnan(x) else f32(x) for x in exp]
+                g = [float(unfr(x)) for x in got[key]["vals"]]
+                if len(g) != len(exp) or any((isnan(a) != isnan(b)) or (not isnan(a) and a != b) for a, b in zip(exp, g)):
+                    return {"series": list(key), "expected": exp, "got": g, "window": list(win)}
+                if got[key]["unit"] != units[key]:
+                    return {"series": list(key), "unit": got[key]["unit"], "expected_unit": units[key]}
+            return None
+
+        def readback_check(label):
+            def wr():
+                with warnings.catch_warnings():
+                    warnings.simplefilter("ignore")
+                    ts.write()
+                    return P.real_to_store(pi.Timeseries(dc, folder, "ts", binary=binary), ids)
+            back = call(wr)
+            if back[0] == "raise":
+                fails.append(("write/read (%s) raised %s" % (label, back[1]), {"ops": len(ops)}))
+                return None
+            b = back[1]
+            stamps_ = list(range(win[0], win[1] + 1, d0))
+            slots_b = b["slots"] + [[] for _ in range(E - len(b["slots"]))]
+            e_exp = (max(m2 for (m2, _) in ref) + 1) if cens else 1
+            bad = None
+            if b["times"] != stamps_:
+                bad = "time stamps %s" % b["times"]
+            elif b["forecast"] != fc:
+                bad = "forecast date %s instead of %s" % (b["forecast"], fc)
+            elif b["ensSize"] != e_exp or b["containsEns"] != cens:
+                bad = "ensemble size %s / flag %s instead of %s / %s" % (b["ensSize"], b["containsEns"], e_exp, cens)
+            else:
+                bad = holds(slots_b, True)
+            if bad:
+                fails.append(("write -> read (%s) does not reproduce the object as it is at that moment "
+                              "(series, values, units, forecast date, members)" % label, bad))
+            return b
+
         for k in range(nops):
+            n = (win[1] - win[0]) // d0 + 1
             if (pattern == "resize-first" and k == 0) or (pattern == "resizes-in-a-row" and k < 3):
                 kind = "resize"
+            elif pattern == "write-change-write" and k in (1, 3) and ref:
+                kind = "write"
+            elif pattern == "write-change-write" and k == 0:
+                kind = "set"
             else:
-                kind = rng.choice(["resize", "set", "set"])
-            n = (win[1] - win[0]) // d0 + 1
+                kind = rng.choice(["resize", "set", "set", "write", "forecast", "member"])
+            if kind == "write" and not ref:
+                kind = "set"
             if kind == "resize":
                 a = rng.choice([0, 1, -1, 2, -2, n - 1, n + 1, -(n + 1)])
                 ns = win[0] + a * d0
@@ -659,77 +717,85 @@ def stream_ops(c, N, tmp):
                 r = call(ts.resize, dtm(ns), dtm(ne))
                 if r[0] == "ok":
                     win = (ns, ne)
-                    # a value that left the window is gone for good
                     ref = {key: {t: v for t, v in byt.items() if ns <= t <= ne} for key, byt in ref.items()}
-            else:
+            elif kind == "set":
                 m = rng.randrange(E)
                 var = rng.randrange(len(ids.names))
                 while True:
                     vals = gen_vals(rng, n, allow_inf=False)
-                    if not collides(vals, False):
+                    if not collides(vals, binary):
                         break
                 o = {"op": "set", "m": m, "var": var, "unit": rng.choice(P.UNITS), "vals": [xv(x) for x in vals]}
                 r = call(ts.set, ids.names[var], np.array(vals, dtype=float), unit=o["unit"], ensemble_member=m)
                 if r[0] == "ok":
                     ref[(m, var)] = dict(zip(range(win[0], win[1] + 1, d0), vals))
+                    units[(m, var)] = o["unit"]
+            elif kind == "forecast":
+                t = rng.choice(list(range(win[0], win[1] + 1, d0)))
+                o = {"op": "forecast", "t": t}
+                r = call(setattr, ts, "forecast_datetime", dtm(t))
+                if r[0] == "ok":
+                    fc = t
+                model_ok = False
+            elif kind == "member":
+                o = {"op": "member"}
+
+                def grow():
+                    ts.contains_ensemble = True
+                    ts.ensemble_size = E + 1
+                r = call(grow)
+                if r[0] == "ok":
+                    E += 1
+                    cens = True
+                model_ok = False
+            else:
+                o = {"op": "write"}
+                nwrites += 1
+                b = readback_check("write no. %d" % nwrites)
+                r = ("ok", None)
             ops.append(o)
+            c.hit("ops/" + o["op"] + (" (no series yet)" if o["op"] == "resize" and not ref else ""))
             if r[0] == "raise":
                 obs.append("raise")
                 fails.append(("%s raised %s on a new object" % (o["op"], r[1]), o))
                 break
-            now = {"start": sec(ts.start_datetime), "stop": sec(ts.end_datetime), "times": [sec(t) for t in ts.times],
-                   "slots": [[{"var": ids.rank[kk], "unit": ts.get_unit(kk, m2), "vals": [xv(x) for x in np.asarray(v, dtype=float)]}
-                              for kk, v in ts.items(m2)] for m2 in range(E)]}
-            obs.append(now)
-            c.hit("ops/" + o["op"] + (" (no series yet)" if o["op"] == "resize" and not ref else ""))
-        # oracle: every stored series holds at each stamp of the current window the value last set for it
+            if o["op"] in ("resize", "set"):
+                now = {"start": sec(ts.start_datetime), "stop": sec(ts.end_datetime), "times": [sec(t) for t in ts.times],
+                       "slots": [[{"var": ids.rank[kk], "unit": ts.get_unit(kk, m2), "vals": [xv(x) for x in np.asarray(v, dtype=float)]}
+                                  for kk, v in ts.items(m2)] for m2 in range(E)]}
+                obs.append(now)
         stamps = list(range(win[0], win[1] + 1, d0))
-
-        def holds(slots):
-            got = {(m2, e["var"]): [float(unfr(x)) for x in e["vals"]] for m2, sl in enumerate(slots) for e in sl}
-            if set(got) != set(ref):
-                return "stored series: %s instead of %s" % (sorted(got), sorted(ref))
-            for key, byt in ref.items():
-                exp = [byt.get(t, NAN) for t in stamps]
-                g = got[key]
-                if len(g) != len(exp) or any((isnan(a) != isnan(b)) or (not isnan(a) and a != b) for a, b in zip(exp, g)):
-                    return {"series": list(key), "expected": exp, "got": g, "window": list(win)}
-            return None
-
-        if obs and obs[-1] != "raise":
-            last = obs[-1]
-            if last["start"] != win[0] or last["stop"] != win[1] or last["times"] != stamps:
+        last = [x for x in obs if x != "raise"]
+        if last and not (obs and obs[-1] == "raise"):
+            lastv = last[-1]
+            if lastv["start"] != win[0] or lastv["stop"] != win[1] or lastv["times"] != stamps:
                 fails.append(("after a set/resize sequence the time range is not the last window",
-                              {"window": list(win), "start": last["start"], "stop": last["stop"], "times": last["times"]}))
-            bad = holds(last["slots"])
+                              {"window": list(win), "start": lastv["start"], "stop": lastv["stop"], "times": lastv["times"]}))
+        if not (obs and obs[-1] == "raise"):
+            now_slots = [[{"var": ids.rank[kk], "unit": ts.get_unit(kk, m2), "vals": [xv(x) for x in np.asarray(v, dtype=float)]}
+                          for kk, v in ts.items(m2)] for m2 in range(E)]
+            bad = holds(now_slots, False)
             if bad:
                 fails.append(("after a set/resize sequence a series does not hold the value last set for each stamp "
                               "of the current window (NaN if never set)", bad))
             if ref:
-                def wr():
-                    ts.write()
-                    return P.real_to_store(pi.Timeseries(dc, folder, "ts", binary=False), ids)
-                back = call(wr)
-                if back[0] == "raise":
-                    fails.append(("write/read after a set/resize sequence raised " + back[1], {}))
-                else:
-                    b = back[1]
-                    slots_b = b["slots"] + [[] for _ in range(E - len(b["slots"]))]
-                    bad = "time stamps %s" % b["times"] if b["times"] != stamps else holds(slots_b)
-                    if bad:
-                        fails.append(("write -> read after a set/resize sequence does not reproduce the object", bad))
+                nwrites += 1
+                readback_check("final write, no. %d" % nwrites)
+        c.hit("ops/writes per object", nwrites)
         shutil.rmtree(folder, ignore_errors=True)
-        case = {"stream": "pi new object: resize/set sequence", "names": ids.names, "store": st, "ops": ops}
-        cases.append((case, obs, fails))
-        lines.append({"op": "pi_ops", "store": st, "ops": ops})
-        c.count(("ops", init, E, len(st["times"]), tuple(o["op"] for o in ops)))
+        case = {"stream": "pi new object: set/resize/forecast/member/write sequence", "binary": binary,
+                "names": ids.names, "store": st, "ops": ops}
+        cases.append((case, obs, fails, model_ok))
+        lines.append({"op": "pi_ops", "store": st, "ops": [o for o in ops if o["op"] in ("resize", "set")]})
+        c.count(("ops", init, binary, E, len(st["times"]), tuple(o["op"] for o in ops)))
         c.hit("ops/initial series: " + init)
+        c.hit("ops/" + ("binary" if binary else "xml"))
         c.sample(case, limit=1)
     outs = c.model(lines)
-    for k, (case, obs, fails) in enumerate(cases):
+    for k, (case, obs, fails, model_ok) in enumerate(cases):
         for what, detail in fails:
             c.fail(what, case, detail)
-        if outs is None:
+        if outs is None or not model_ok:
             continue
         for mo, ob in zip(outs[k], obs):
             if mo == "raise" or ob == "raise":
